@@ -43,8 +43,10 @@ func NewMerger(
 	logger logr.Logger,
 ) (m *Merger, err error) {
 	m = &Merger{
-		db:             db,
-		errChan:        make(chan error, len(otherTs)),
+		db: db,
+		// one slot per possible sender: each differ, mergeTables and the collector
+		// send at most one error and nobody receives until Error() is called
+		errChan:        make(chan error, len(otherTs)+2),
 		progressPeriod: progressPeriod,
 		baseT:          baseT,
 		otherTs:        otherTs,
